@@ -184,7 +184,9 @@ def dump_bin(bin_value, version=LATEST_VER):
 
 
 def dump_xstr(xstr_value, version=LATEST_VER):
-    return str(xstr_value)
+    # The payload is a string literal: escape it like one.
+    return '%s(%s)' % (xstr_value.encoding,
+                       dump_str(xstr_value.data_to_string(), version=version))
 
 
 def dump_quantity(quantity, version=LATEST_VER):
